@@ -796,7 +796,8 @@ impl OptimizedSearch for u8 {
 
             // Compare all keys at once
             let cmp = _mm_cmpeq_epi8(search_vec, keys_vec);
-            let mask = _mm_movemask_epi8(cmp) as u32;
+            // Only the first `len` lanes hold keys; the zero padding must not match key 0
+            let mask = (_mm_movemask_epi8(cmp) as u32) & ((1u32 << len.min(8)) - 1);
 
             if mask != 0 {
                 // Found a match, find the first set bit
@@ -849,7 +850,8 @@ impl OptimizedSearch for u32 {
 
                 let keys_vec = _mm_loadu_si128(key_array.as_ptr() as *const __m128i);
                 let cmp = _mm_cmpeq_epi32(search_vec, keys_vec);
-                let mask = _mm_movemask_ps(_mm_castsi128_ps(cmp)) as u32;
+                // Only lanes 0..len-4 hold keys; the zero padding must not match key 0
+                let mask = (_mm_movemask_ps(_mm_castsi128_ps(cmp)) as u32) & ((1u32 << (len.min(8) - 4)) - 1);
 
                 if mask != 0 {
                     return Some(4 + mask.trailing_zeros() as usize);
